@@ -87,6 +87,8 @@ type checkRun struct {
 	notes      []string
 	bounded    *BoundedResult
 	scanViolations []string
+	searchDone     map[string]*searchHit // per function key: result of the bounded search (nil = nothing found)
+	searchReported map[string]bool
 }
 
 type violation struct {
@@ -138,7 +140,7 @@ func cmdCheck(args []string) int {
 		return 2
 	}
 	start := time.Now()
-	run := &checkRun{prop: prop, tier: tier, seed: seed}
+	run := &checkRun{prop: prop, tier: tier, seed: seed, searchDone: map[string]*searchHit{}, searchReported: map[string]bool{}}
 	eng := newEngine(repoDir())
 	eng.requireVariants = prop.RequireVars
 	eng.onlySafe = prop.OnlySafe
@@ -254,6 +256,19 @@ func (run *checkRun) verdict(eng *Engine, outDir string) int {
 				continue
 			}
 			if o.Tainted {
+				// the proof says nothing about this code any more; a bounded
+				// search of the real function against its own contract may
+				// still produce a failing input
+				if v, ok := run.searchViolation(eng, r, o, outDir); ok {
+					if !run.searchReported[r.Key] {
+						run.searchReported[r.Key] = true
+						run.violations = append(run.violations, v)
+						fmt.Printf("VIOLATION property=%s replay=%s\n", prop.ID, v.replay)
+						fmt.Printf("  %s: the loop contract no longer binds to the code; a bounded search of the real function against its contract found a failing input (see the replay file)\n", shortKey(r.Key))
+						code = 1
+					}
+					continue
+				}
 				run.toolErrors = append(run.toolErrors, fmt.Sprintf("%s: not decided (a loop contract of this function no longer binds to the code)", o.Name))
 				continue
 			}
@@ -274,6 +289,12 @@ func (run *checkRun) verdict(eng *Engine, outDir string) int {
 				}
 			}
 			v := run.replay(eng, r, o, outDir)
+			if !v.reproduced {
+				if sv, ok := run.searchViolation(eng, r, o, outDir); ok {
+					v.reproduced = true
+					v.detail = sv.detail
+				}
+			}
 			run.violations = append(run.violations, v)
 			suffix := ""
 			if !v.reproduced {
